@@ -1,5 +1,7 @@
 """C12 - traffic selectors are only ever narrowed and the mode must match."""
 import ast
+import contextlib
+import copy
 import itertools
 import os
 
@@ -10,7 +12,15 @@ CLUSTER = 'ts'
 FIELDS = ['ts_type', 'ip_proto', 'start_port', 'end_port', 'start_addr', 'end_addr']
 
 
+# =============================================================================================
+# tie 1: translator  /repo/message.py, /repo/ikesa.py, /repo/xfrm.py -> coq/ts/Gen/*.v
+
 def translate(ctx):
+    translate_message(ctx)
+    translate_ikesa(ctx)
+
+
+def translate_message(ctx):
     src = pyast.Src(os.path.join(core.REPO, 'message.py'))
     env = {f'self.{f}': f'({f} self)' for f in FIELDS}
     env.update({f'other.{f}': f'({f} other)' for f in FIELDS})
@@ -23,32 +33,69 @@ def translate(ctx):
     get_port = pyast.func_to_gallina(src, src.func('TrafficSelector.get_port'), env, rettype='Z')
     # from_network: the 4th positional argument of the returned constructor call is the end port rule
     fn = src.func('TrafficSelector.from_network')
+    if [a.arg for a in fn.args.args] != ['cls', 'subnet', 'port', 'ip_proto'] or len(fn.body) != 2:
+        src.fail(fn, 'from_network signature/body changed')
     ret = fn.body[-1]
     if not (isinstance(ret, ast.Return) and isinstance(ret.value, ast.Call)
-            and pyast.dotted_name(ret.value.func) == 'TrafficSelector' and len(ret.value.args) == 6):
+            and pyast.dotted_name(ret.value.func) == 'TrafficSelector' and len(ret.value.args) == 6
+            and not ret.value.keywords):
         src.fail(fn, 'from_network no longer returns TrafficSelector(type, proto, port, end, first, last)')
     a = ret.value.args
-    if pyast.dotted_name(a[2]) != 'port' or pyast.dotted_name(a[1]) != 'ip_proto':
+    if pyast.dotted_name(a[2]) != 'port' or pyast.dotted_name(a[1]) != 'ip_proto' \
+            or pyast.dotted_name(a[0]) != 'ts_type':
         src.fail(ret, 'from_network argument order changed')
     end_rule, ty = pyast.expr_to_gallina(src, a[3], {'port': 'port'})
+    if ty != 'Z':
+        src.fail(ret, 'from_network end port is not an integer expression')
     for idx, want in ((4, 0), (5, -1)):
         s = a[idx]
         ok = (isinstance(s, ast.Subscript) and pyast.dotted_name(s.value) == 'subnet'
               and src.lit(s.slice) == want)
         if not ok:
             src.fail(ret, 'from_network address arguments changed')
-    ts_type_rule = src.segment(fn.body[-2]) if len(fn.body) >= 2 else ''
-    if 'TS_IPV6_ADDR_RANGE if subnet[0].version == 6' not in ts_type_rule.replace('\n', ' ') \
-            or 'else TrafficSelector.Type.TS_IPV4_ADDR_RANGE' not in ts_type_rule.replace('\n', ' '):
-        src.fail(fn, 'from_network ts_type rule changed')
+    # ts_type = (V6 if subnet[0].version == 6 else V4): translate with subnet[0].version renamed to `version`
+    asg = fn.body[0]
+    if not (isinstance(asg, ast.Assign) and len(asg.targets) == 1 and pyast.dotted_name(asg.targets[0]) == 'ts_type'):
+        src.fail(asg, 'from_network: ts_type assignment changed')
+
+    class Ren(ast.NodeTransformer):
+        def visit_Attribute(self, n):
+            if n.attr == 'version' and isinstance(n.value, ast.Subscript) \
+                    and pyast.dotted_name(n.value.value) == 'subnet' and isinstance(n.value.slice, ast.Constant) \
+                    and n.value.slice.value == 0:
+                return ast.copy_location(ast.Name(id='version', ctx=ast.Load()), n)
+            return self.generic_visit(n)
+    type_rule, ty = pyast.expr_to_gallina(src, Ren().visit(copy.deepcopy(asg.value)), dict(env, version='version'))
+    if ty != 'Z':
+        src.fail(asg, 'from_network: ts_type rule is not an integer expression')
+    # parse(): addr_len rule (which address family a ts_type carries)
+    pf = src.func('TrafficSelector.parse')
+    addr_len = None
+    for n in ast.walk(pf):
+        if isinstance(n, ast.Assign) and len(n.targets) == 1 and pyast.dotted_name(n.targets[0]) == 'addr_len':
+            addr_len, ty = pyast.expr_to_gallina(src, n.value, dict(env, ts_type='ts_type'))
+            if ty != 'Z':
+                src.fail(n, 'addr_len is not an integer expression')
+    if addr_len is None:
+        src.fail(pf, 'TrafficSelector.parse: addr_len rule not found')
+    # get_network: the loop shape (modelled by hand in TsModel.get_network)
+    gn = src.func('TrafficSelector.get_network')
+    want = ("def get_network(self):\n"
+            "    network = ip_network(self.start_addr)\n"
+            "    while self.end_addr not in network:\n"
+            "        network = network.supernet()\n"
+            "    return network\n")
+    if ast.dump(gn) != ast.dump(ast.parse(want).body[0]):
+        src.fail(gn, 'TrafficSelector.get_network is no longer the ip_network/supernet loop modelled in TsModel.v')
+    types = dict(src.enum('TrafficSelector.Type'))
     text = f'''(* GENERATED from /repo/message.py by py/props/c12.py - do not edit *)
 From Coq Require Import ZArith Bool.
 Open Scope Z_scope.
 
 Record ts := {{ ts_type : Z; ip_proto : Z; start_port : Z; end_port : Z; start_addr : Z; end_addr : Z }}.
 
-Definition TS_IPV4_ADDR_RANGE : Z := {dict(src.enum('TrafficSelector.Type'))['TS_IPV4_ADDR_RANGE']}.
-Definition TS_IPV6_ADDR_RANGE : Z := {dict(src.enum('TrafficSelector.Type'))['TS_IPV6_ADDR_RANGE']}.
+Definition TS_IPV4_ADDR_RANGE : Z := {types['TS_IPV4_ADDR_RANGE']}.
+Definition TS_IPV6_ADDR_RANGE : Z := {types['TS_IPV6_ADDR_RANGE']}.
 
 (* TrafficSelector.is_subset *)
 Definition is_subset (self other : ts) : bool :=
@@ -65,11 +112,375 @@ Definition get_port (self : ts) : Z :=
 (* TrafficSelector.from_network: end port of the selector built for a configured port *)
 Definition from_network_end_port (port : Z) : Z :=
   {end_rule}.
+
+(* TrafficSelector.from_network: ts_type from the IP version of the network *)
+Definition from_network_ts_type (version : Z) : Z :=
+  {type_rule}.
+
+(* TrafficSelector.parse: number of address bytes carried by a selector of this type *)
+Definition addr_len (ts_type : Z) : Z :=
+  {addr_len}.
 '''
     pyast.write_if_changed(os.path.join(core.cluster_dir(CLUSTER), 'Gen', 'TsFuns.v'), text)
 
 
-# ---------------------------------------------------------------------------------------------
+def _same(src, node, want, what):
+    """Fail closed unless `node` is structurally the statement/expression `want` (source text)."""
+    w = ast.parse(want).body[0]
+    if isinstance(w, ast.Expr) and not isinstance(node, ast.Expr):
+        w = w.value
+    if ast.dump(node) != ast.dump(w):
+        src.fail(node, f'{what}: expected `{want}`, found `{src.segment(node)}`')
+
+
+def ts_bool(src, node, names):
+    """and/or/not over `X.is_subset(Y)` calls and `not <name>`, X and Y taken from `names`."""
+    if isinstance(node, ast.BoolOp):
+        op = 'andb' if isinstance(node.op, ast.And) else 'orb'
+        parts = [ts_bool(src, v, names) for v in node.values]
+        t = parts[-1]
+        for p in reversed(parts[:-1]):
+            t = f'({op} {p} {t})'
+        return t
+    if isinstance(node, ast.UnaryOp) and isinstance(node.op, ast.Not):
+        d = pyast.dotted_name(node.operand)
+        if d in names and names[d][1] == 'list':
+            return f'(is_nil {names[d][0]})'        # truth value of a list
+        return f'(negb {ts_bool(src, node.operand, names)})'
+    if isinstance(node, ast.Call) and isinstance(node.func, ast.Attribute) and node.func.attr == 'is_subset' \
+            and len(node.args) == 1 and not node.keywords:
+        a, b = pyast.dotted_name(node.func.value), pyast.dotted_name(node.args[0])
+        if a in names and b in names and names[a][1] == 'ts' and names[b][1] == 'ts':
+            return f'(is_subset {names[a][0]} {names[b][0]})'
+    src.fail(node, f'condition outside the selector subset: {src.segment(node)}')
+
+
+def translate_ikesa(ctx):
+    src = pyast.Src(os.path.join(core.REPO, 'ikesa.py'))
+    xsrc = pyast.Src(os.path.join(core.REPO, 'xfrm.py'))
+    modes = dict(xsrc.enum('Mode'))
+    if set(modes) != {'TRANSPORT', 'TUNNEL'} or modes['TRANSPORT'] == modes['TUNNEL']:
+        xsrc.fail(xsrc.cls('Mode'), 'xfrm.Mode is no longer {TRANSPORT, TUNNEL}')
+
+    # ---- _get_ipsec_configuration ------------------------------------------------------------
+    fn = src.func('IkeSa._get_ipsec_configuration')
+    if [a.arg for a in fn.args.args] != ['self', 'payload_tsi', 'payload_tsr']:
+        src.fail(fn, '_get_ipsec_configuration signature changed')
+    body = [s for s in fn.body if not (isinstance(s, ast.Expr) and isinstance(s.value, ast.Constant))]
+    if len(body) != 2 or not isinstance(body[0], ast.For) or not isinstance(body[1], ast.Raise):
+        src.fail(fn, '_get_ipsec_configuration is no longer `for ...: ...` followed by `raise`')
+    _same(src, body[1].exc.func if isinstance(body[1].exc, ast.Call) else body[1].exc, 'TsUnacceptable',
+          'exception raised when nothing matches')
+
+    def loop(node, target, payload):
+        """for <target> in [reversed](<payload>.traffic_selectors): <single statement> -> (Gallina iterator, stmt)"""
+        if not (isinstance(node, ast.For) and pyast.dotted_name(node.target) == target and not node.orelse
+                and len(node.body) == 1):
+            src.fail(node, f'loop over {payload} changed')
+        it = node.iter
+        if isinstance(it, ast.Call) and pyast.dotted_name(it.func) == 'reversed' and len(it.args) == 1 \
+                and pyast.dotted_name(it.args[0]) == payload + '.traffic_selectors':
+            return 'rev l', node.body[0]
+        if pyast.dotted_name(it) == payload + '.traffic_selectors':
+            return 'l', node.body[0]
+        src.fail(node, f'iteration order over {payload} outside the subset')
+    it_tsi, inner = loop(body[0], 'tsi', 'payload_tsi')
+    it_tsr, inner = loop(inner, 'tsr', 'payload_tsr')
+    if not (isinstance(inner, ast.For) and pyast.dotted_name(inner.target) == 'ipsec_conf' and not inner.orelse
+            and pyast.dotted_name(inner.iter) == 'self.configuration.protect' and len(inner.body) == 1
+            and isinstance(inner.body[0], ast.If)):
+        src.fail(inner, 'innermost loop is no longer `for ipsec_conf in self.configuration.protect: if ...`')
+    names = {'tsi': ('tsi', 'ts'), 'tsr': ('tsr', 'ts'),
+             'ipsec_conf.my_ts': ('conf_my_ts', 'ts'), 'ipsec_conf.peer_ts': ('conf_peer_ts', 'ts')}
+
+    def ret_pair(stmts):
+        if not (len(stmts) == 1 and isinstance(stmts[0], ast.Return) and isinstance(stmts[0].value, ast.Tuple)
+                and len(stmts[0].value.elts) == 3 and pyast.dotted_name(stmts[0].value.elts[0]) == 'ipsec_conf'):
+            src.fail(stmts[0], 'a matching rule must `return ipsec_conf, <my selector>, <peer selector>`')
+        out = []
+        for e in stmts[0].value.elts[1:]:
+            d = pyast.dotted_name(e)
+            if d not in names:
+                src.fail(e, 'returned selector outside the subset')
+            out.append(names[d][0])
+        return f'Some ({out[0]}, {out[1]})'
+
+    def chain(node):
+        cond = ts_bool(src, node.test, names)
+        then = ret_pair(node.body)
+        if not node.orelse:
+            rest = 'None'
+        elif len(node.orelse) == 1 and isinstance(node.orelse[0], ast.If):
+            rest = chain(node.orelse[0])
+        else:
+            src.fail(node, 'else branch outside the subset')
+        return f'if {cond} then {then}\n  else {rest}'
+    conf_step = chain(inner.body[0])
+
+    # ---- responder: _process_create_child_sa_negotiation_req ---------------------------------
+    fn = src.func('IkeSa._process_create_child_sa_negotiation_req')
+    tr = next((s for s in fn.body if isinstance(s, ast.Try)), None)
+    if tr is None:
+        src.fail(fn, 'responder: try block not found')
+    stmts = tr.body
+    pos = {}
+
+    def find(pred, what):
+        hits = [i for i, s in enumerate(stmts) if pred(s)]
+        if len(hits) != 1:
+            src.fail(fn, f'responder: expected exactly one `{what}` at the top level of the try block, found {len(hits)}')
+        return hits[0]
+    # rekey check
+    i_rekey = find(lambda s: isinstance(s, ast.If) and pyast.dotted_name(s.test) == 'rekey_notify', 'if rekey_notify:')
+    pos['rekey'] = i_rekey
+    rk = [s for s in stmts[i_rekey].body if isinstance(s, ast.If) and 'traffic_selectors' in src.segment(s.test)]
+    if len(rk) != 1:
+        src.fail(stmts[i_rekey], 'responder: rekey selector check not found')
+    rk = rk[0]
+    if not (len(rk.body) == 1 and isinstance(rk.body[0], ast.Raise) and isinstance(rk.body[0].exc, ast.Call)
+            and pyast.dotted_name(rk.body[0].exc.func) == 'TsUnacceptable' and not rk.orelse):
+        src.fail(rk, 'responder: rekey selector check no longer raises TsUnacceptable')
+    # nothing that installs may precede it inside the rekey block
+    lists = {'request_payload_tsi.traffic_selectors': 'req_tsi', 'request_payload_tsr.traffic_selectors': 'req_tsr'}
+    olds = {'rekeyed_child_sa.tsi': 'old_tsi', 'rekeyed_child_sa.tsr': 'old_tsr'}
+
+    def rekey_expr(n):
+        if isinstance(n, ast.BoolOp):
+            op = 'andb' if isinstance(n.op, ast.And) else 'orb'
+            parts = [rekey_expr(v) for v in n.values]
+            t = parts[-1]
+            for p in reversed(parts[:-1]):
+                t = f'({op} {p} {t})'
+            return t
+        if isinstance(n, ast.Compare) and len(n.ops) == 1 and isinstance(n.ops[0], (ast.Eq, ast.NotEq)):
+            l, r = pyast.dotted_name(n.left), n.comparators[0]
+            if l in lists and isinstance(r, ast.List) and all(pyast.dotted_name(e) in olds for e in r.elts):
+                rhs = '[' + '; '.join(olds[pyast.dotted_name(e)] for e in r.elts) + ']'
+                t = f'(ts_list_eq {lists[l]} {rhs})'
+                return t if isinstance(n.ops[0], ast.Eq) else f'(negb {t})'
+        src.fail(n, 'rekey selector check outside the subset')
+    rekey_cond = rekey_expr(rk.test)
+    # rekeyed_child_sa comes from get_child_sa(first REKEY_SA notify spi)
+    _same(src, next((s for s in stmts[i_rekey].body if isinstance(s, ast.Assign)), stmts[i_rekey]),
+          'rekeyed_child_sa = self.get_child_sa(rekey_notify[0].spi)', 'responder: replaced SA lookup')
+    # policy lookup
+    i_conf = find(lambda s: isinstance(s, ast.Assign) and '_get_ipsec_configuration' in src.segment(s), 'policy lookup')
+    _same(src, stmts[i_conf], 'ipsec_conf, chosen_tsr, chosen_tsi = self._get_ipsec_configuration(request_payload_tsi, '
+          'request_payload_tsr)', 'responder: policy lookup')
+    pos['conf'] = i_conf
+    # requested mode
+    i_m0 = find(lambda s: isinstance(s, ast.Assign) and pyast.dotted_name(s.targets[0]) == 'requested_mode',
+                'requested_mode = ...')
+    dflt = pyast.dotted_name(stmts[i_m0].value)
+    i_m1 = find(lambda s: isinstance(s, ast.If) and 'USE_TRANSPORT_MODE' in src.segment(s.test), 'transport notify test')
+    _same(src, stmts[i_m1].test, 'request.get_notifies(PayloadNOTIFY.Type.USE_TRANSPORT_MODE, True)',
+          'responder: transport mode notify test')
+    asg = [s for s in stmts[i_m1].body if isinstance(s, ast.Assign)]
+    if len(asg) != 1 or pyast.dotted_name(asg[0].targets[0]) != 'requested_mode' or stmts[i_m1].orelse:
+        src.fail(stmts[i_m1], 'responder: requested_mode assignment changed')
+    alt = pyast.dotted_name(asg[0].value)
+    mode_names = {'xfrm.Mode.TRANSPORT': 'MODE_TRANSPORT', 'xfrm.Mode.TUNNEL': 'MODE_TUNNEL'}
+    if dflt not in mode_names or alt not in mode_names:
+        src.fail(stmts[i_m0], 'responder: requested mode is not an xfrm.Mode constant')
+    # mode check
+    i_mode = find(lambda s: isinstance(s, ast.If) and 'requested_mode' in src.segment(s.test), 'mode check')
+    mode_env = {'ipsec_conf.mode': 'conf_mode', 'requested_mode': 'req_mode'}
+    mode_cond, ty = pyast.expr_to_gallina(src, stmts[i_mode].test, mode_env)
+    mb = stmts[i_mode].body
+    if not (ty == 'bool' and len(mb) == 1 and isinstance(mb[0], ast.Raise) and isinstance(mb[0].exc, ast.Call)
+            and pyast.dotted_name(mb[0].exc.func) == 'TsUnacceptable' and not stmts[i_mode].orelse):
+        src.fail(stmts[i_mode], 'responder: mode check no longer raises TsUnacceptable')
+    pos['mode'] = i_mode
+    # the CHILD_SA that is installed
+    i_child = find(lambda s: isinstance(s, ast.Assign) and isinstance(s.value, ast.Call)
+                   and pyast.dotted_name(s.value.func) == 'ChildSa', 'child_sa = ChildSa(...)')
+    kw = {k.arg: pyast.dotted_name(k.value) for k in stmts[i_child].value.keywords}
+    sel = {'chosen_tsr': 'my_ts', 'chosen_tsi': 'peer_ts'}     # (ipsec_conf, chosen_tsr, chosen_tsi) = (conf, my, peer)
+    if kw.get('tsi') not in sel or kw.get('tsr') not in sel or kw.get('mode') != 'requested_mode' \
+            or pyast.dotted_name(stmts[i_child].targets[0]) != 'child_sa' or stmts[i_child].value.args:
+        src.fail(stmts[i_child], 'responder: ChildSa(... tsi=, tsr=, mode=) outside the subset')
+    pos['child'] = i_child
+    i_inst = find(lambda s: isinstance(s, ast.Expr) and 'create_child_sa' in src.segment(s), 'create_child_sa call')
+    _same(src, stmts[i_inst], 'xfrm.Xfrm.create_child_sa(self, child_sa, child_sa_keyring, is_initiator=False)',
+          'responder: kernel installation')
+    pos['install'] = i_inst
+    i_sel = find(lambda s: isinstance(s, ast.Assign) and '_select_best_sa_proposal' in src.segment(s), 'proposal selection')
+    if not (pos['rekey'] < pos['conf'] < i_m0 < i_m1 < pos['mode'] < i_sel < pos['child'] < pos['install']):
+        src.fail(fn, 'responder: order of rekey check / policy lookup / mode check / installation changed')
+    # no other statement of the try block may install or track a CHILD_SA before the checks
+    for s in stmts[:pos['mode'] + 1]:
+        seg = src.segment(s)
+        if 'Xfrm.' in seg or 'child_sas.append' in seg:
+            src.fail(s, 'responder: kernel/table update before the selector and mode checks')
+    # TsUnacceptable is answered with a notify built from the exception
+    h = tr.handlers[0] if tr.handlers else None
+    hn = [pyast.dotted_name(e) for e in h.type.elts] if h is not None and isinstance(h.type, ast.Tuple) else []
+    if 'TsUnacceptable' not in hn or not isinstance(h.body[-1], ast.Return) \
+            or src.segment(h.body[-1].value) != '[PayloadNOTIFY.from_exception(ex)]':
+        src.fail(tr, 'responder: TsUnacceptable is no longer answered with [PayloadNOTIFY.from_exception(ex)]')
+    # response selectors
+    for want in ('response_payloads.append(PayloadTSi([chosen_tsi]))', 'response_payloads.append(PayloadTSr([chosen_tsr]))'):
+        if not any(isinstance(s, ast.Expr) and src.segment(s) == want for s in stmts[pos['install']:]):
+            src.fail(fn, f'responder: `{want}` not found after the installation')
+
+    # ---- initiator: _process_create_child_sa_negotiation_res ---------------------------------
+    fn2 = src.func('IkeSa._process_create_child_sa_negotiation_res')
+    st2 = fn2.body
+
+    def find2(pred, what):
+        hits = [i for i, s in enumerate(st2) if pred(s)]
+        if len(hits) != 1:
+            src.fail(fn2, f'initiator: expected exactly one `{what}`, found {len(hits)}')
+        return hits[0]
+    j_tm = find2(lambda s: isinstance(s, ast.Assign) and pyast.dotted_name(s.targets[0]) == 'response_transport_mode',
+                 'response_transport_mode = ...')
+    _same(src, st2[j_tm], 'response_transport_mode = response.get_notifies(PayloadNOTIFY.Type.USE_TRANSPORT_MODE, True)',
+          'initiator: transport notify')
+    j_rm = find2(lambda s: isinstance(s, ast.Assign) and pyast.dotted_name(s.targets[0]) == 'response_mode',
+                 'response_mode = ...')
+    v = st2[j_rm].value
+    if not (isinstance(v, ast.IfExp) and pyast.dotted_name(v.test) == 'response_transport_mode'
+            and pyast.dotted_name(v.body) in mode_names and pyast.dotted_name(v.orelse) in mode_names):
+        src.fail(st2[j_rm], 'initiator: response_mode rule outside the subset')
+    resp_mode = f'if transport_notify then {mode_names[pyast.dotted_name(v.body)]} else {mode_names[pyast.dotted_name(v.orelse)]}'
+    j_mode = find2(lambda s: isinstance(s, ast.If) and 'response_mode' in src.segment(s.test), 'mode check')
+    imode_cond, ty = pyast.expr_to_gallina(src, st2[j_mode].test,
+                                           {'self.creating_child_sa.mode': 'my_mode', 'response_mode': 'resp_mode'})
+    mb = st2[j_mode].body
+    if not (ty == 'bool' and len(mb) == 1 and isinstance(mb[0], ast.Raise) and isinstance(mb[0].exc, ast.Call)
+            and pyast.dotted_name(mb[0].exc.func) == 'TsUnacceptable' and not st2[j_mode].orelse):
+        src.fail(st2[j_mode], 'initiator: mode check no longer raises TsUnacceptable')
+    j_ti = find2(lambda s: isinstance(s, ast.Assign) and pyast.dotted_name(s.targets[0]) == 'chosen_tsi', 'chosen_tsi =')
+    j_tr = find2(lambda s: isinstance(s, ast.Assign) and pyast.dotted_name(s.targets[0]) == 'chosen_tsr', 'chosen_tsr =')
+    _same(src, st2[j_ti], 'chosen_tsi = response_payload_tsi.traffic_selectors[0]', 'initiator: chosen TSi')
+    _same(src, st2[j_tr], 'chosen_tsr = response_payload_tsr.traffic_selectors[0]', 'initiator: chosen TSr')
+    flt = {}
+    for nm, chosen, offered in (('matches_tsi', 'chosen_tsi', 'self.creating_child_sa.tsi'),
+                                ('matches_tsr', 'chosen_tsr', 'self.creating_child_sa.tsr')):
+        j = find2(lambda s: isinstance(s, ast.Assign) and pyast.dotted_name(s.targets[0]) == nm, nm + ' = [...]')
+        lc = st2[j].value
+        if not (isinstance(lc, ast.ListComp) and pyast.dotted_name(lc.elt) == 'x' and len(lc.generators) == 1
+                and pyast.dotted_name(lc.generators[0].target) == 'x' and len(lc.generators[0].ifs) == 1
+                and pyast.dotted_name(lc.generators[0].iter) == offered):
+            src.fail(st2[j], f'initiator: {nm} comprehension outside the subset')
+        flt[nm] = (j, ts_bool(src, lc.generators[0].ifs[0], {chosen: ('chosen', 'ts'), 'x': ('x', 'ts')}))
+    j_chk = find2(lambda s: isinstance(s, ast.If) and 'matches_ts' in src.segment(s.test), 'narrowing check')
+    narrow_cond = ts_bool(src, st2[j_chk].test, {'matches_tsi': ('matches_tsi', 'list'), 'matches_tsr': ('matches_tsr', 'list')})
+    mb = st2[j_chk].body
+    if not (len(mb) == 1 and isinstance(mb[0], ast.Raise) and isinstance(mb[0].exc, ast.Call)
+            and pyast.dotted_name(mb[0].exc.func) == 'TsUnacceptable' and not st2[j_chk].orelse):
+        src.fail(st2[j_chk], 'initiator: narrowing check no longer raises TsUnacceptable')
+    j_rep = find2(lambda s: isinstance(s, ast.Assign) and '_replace' in src.segment(s), 'creating_child_sa._replace')
+    rep = st2[j_rep].value
+    kw = {k.arg: pyast.dotted_name(k.value) for k in rep.keywords} if isinstance(rep, ast.Call) else {}
+    if pyast.dotted_name(st2[j_rep].targets[0]) != 'self.creating_child_sa' \
+            or pyast.dotted_name(rep.func) != 'self.creating_child_sa._replace' or rep.args \
+            or kw.get('tsi') not in ('chosen_tsi', 'chosen_tsr') or kw.get('tsr') not in ('chosen_tsi', 'chosen_tsr') \
+            or 'mode' in kw:
+        src.fail(st2[j_rep], 'initiator: installed CHILD_SA fields outside the subset')
+    j_inst = find2(lambda s: isinstance(s, ast.Expr) and 'create_child_sa' in src.segment(s), 'create_child_sa call')
+    _same(src, st2[j_inst], 'xfrm.Xfrm.create_child_sa(self, self.creating_child_sa, child_sa_keyring, is_initiator=True)',
+          'initiator: kernel installation')
+    j_app = find2(lambda s: isinstance(s, ast.Expr) and 'child_sas.append' in src.segment(s), 'child_sas.append')
+    order = [j_tm, j_rm, j_mode, j_ti, flt['matches_tsi'][0], flt['matches_tsr'][0], j_chk, j_rep]
+    if order != sorted(order) or not (j_tr < flt['matches_tsr'][0]) or not (j_rep < j_app and j_rep < j_inst):
+        src.fail(fn2, 'initiator: order of mode check / narrowing check / installation changed')
+    for s in st2[:j_rep]:
+        seg = src.segment(s)
+        if 'Xfrm.' in seg or 'child_sas.append' in seg or '_replace' in seg:
+            src.fail(s, 'initiator: kernel/table update before the selector and mode checks')
+
+    # ---- xfrm.Xfrm.create_child_sa: selectors handed to the kernel -----------------------------
+    cf = xsrc.func('Xfrm.create_child_sa')
+    wanted = ['src_selector = child_sa.tsi.get_network()', 'dst_selector = child_sa.tsr.get_network()',
+              'src_port = child_sa.tsi.get_port()', 'dst_port = child_sa.tsr.get_port()',
+              'ip_proto = child_sa.tsi.ip_proto']
+    have = [xsrc.segment(s) for s in cf.body if isinstance(s, ast.Assign)]
+    for w in wanted:
+        if have.count(w) != 1:
+            xsrc.fail(cf, f'create_child_sa: `{w}` not found exactly once')
+    for nm in ('src_selector', 'dst_selector', 'src_port', 'dst_port', 'ip_proto'):
+        if sum(1 for s in ast.walk(cf) if isinstance(s, ast.Name) and s.id == nm and isinstance(s.ctx, ast.Store)) != 1:
+            xsrc.fail(cf, f'create_child_sa: {nm} assigned more than once')
+    calls = [s for s in ast.walk(cf) if isinstance(s, ast.Call) and pyast.dotted_name(s.func) == 'cls.create_sa']
+    if len(calls) != 2:
+        xsrc.fail(cf, 'create_child_sa: expected two create_sa calls')
+    first = [pyast.dotted_name(a) for a in calls[0].args[:6]]
+    second = [pyast.dotted_name(a) for a in calls[1].args[:6]]
+    if first != ['src_selector', 'dst_selector', 'src_port', 'dst_port', 'child_sa.outbound_spi', 'ip_proto'] or \
+            second != ['dst_selector', 'src_selector', 'dst_port', 'src_port', 'child_sa.inbound_spi', 'ip_proto'] or \
+            pyast.dotted_name(calls[0].args[7]) != 'child_sa.mode' or pyast.dotted_name(calls[1].args[7]) != 'child_sa.mode':
+        xsrc.fail(cf, 'create_child_sa: selector arguments of create_sa changed')
+
+    text = f'''(* GENERATED from /repo/ikesa.py and /repo/xfrm.py by py/props/c12.py - do not edit *)
+From Coq Require Import ZArith Bool List.
+From Ts Require Import Gen.TsFuns.
+Import ListNotations.
+Open Scope Z_scope.
+
+(* xfrm.Mode *)
+Definition MODE_TRANSPORT : Z := {modes['TRANSPORT']}.
+Definition MODE_TUNNEL : Z := {modes['TUNNEL']}.
+
+Definition is_nil {{A}} (l : list A) : bool := match l with [] => true | _ => false end.
+
+(* list == list over TrafficSelector.__eq__ *)
+Fixpoint ts_list_eq (a b : list ts) : bool :=
+  match a, b with
+  | [], [] => true
+  | x :: a', y :: b' => andb (ts_eq x y) (ts_list_eq a' b')
+  | _, _ => false
+  end.
+
+(* IkeSa._get_ipsec_configuration: body of the innermost loop for one (tsi, tsr, ipsec_conf);
+   Some (x, y) stands for `return ipsec_conf, x, y` *)
+Definition conf_step (tsi tsr conf_my_ts conf_peer_ts : ts) : option (ts * ts) :=
+  {conf_step}.
+
+(* IkeSa._get_ipsec_configuration: iteration order of the two outer loops *)
+Definition iter_tsi (l : list ts) : list ts := {it_tsi}.
+Definition iter_tsr (l : list ts) : list ts := {it_tsr}.
+
+(* responder (_process_create_child_sa_negotiation_req): the rekey request is refused (TsUnacceptable) when *)
+Definition rekey_ts_mismatch (req_tsi req_tsr : list ts) (old_tsi old_tsr : ts) : bool :=
+  {rekey_cond}.
+
+Definition requested_mode (transport_notify : bool) : Z :=
+  if transport_notify then {mode_names[alt]} else {mode_names[dflt]}.
+
+(* responder: TsUnacceptable when *)
+Definition responder_mode_mismatch (conf_mode req_mode : Z) : bool :=
+  {mode_cond}.
+
+(* responder: (tsi, tsr) of the ChildSa that is installed, from (ipsec_conf, my_ts, peer_ts) = the policy lookup *)
+Definition responder_child_ts (my_ts peer_ts : ts) : ts * ts := ({sel[kw_get(stmts[i_child], 'tsi')]}, {sel[kw_get(stmts[i_child], 'tsr')]}).
+
+(* initiator (_process_create_child_sa_negotiation_res) *)
+Definition response_mode (transport_notify : bool) : Z :=
+  {resp_mode}.
+
+Definition initiator_mode_mismatch (my_mode resp_mode : Z) : bool :=
+  {imode_cond}.
+
+Definition matches_tsi (chosen : ts) (offered : list ts) : list ts := filter (fun x => {flt['matches_tsi'][1]}) offered.
+Definition matches_tsr (chosen : ts) (offered : list ts) : list ts := filter (fun x => {flt['matches_tsr'][1]}) offered.
+
+(* initiator: TsUnacceptable when *)
+Definition initiator_ts_reject (matches_tsi matches_tsr : list ts) : bool :=
+  {narrow_cond}.
+
+(* initiator: (tsi, tsr) of the ChildSa that is installed *)
+Definition initiator_child_ts (chosen_tsi chosen_tsr : ts) : ts * ts := ({kw['tsi']}, {kw['tsr']}).
+'''
+    pyast.write_if_changed(os.path.join(core.cluster_dir(CLUSTER), 'Gen', 'TsIkesa.v'), text)
+
+
+def kw_get(assign, name):
+    return next(pyast.dotted_name(k.value) for k in assign.value.keywords if k.arg == name)
+
+
+# =============================================================================================
+# real code helpers
 
 def mk_ts(t):
     from message import TrafficSelector
@@ -78,6 +489,19 @@ def mk_ts(t):
     v = 4 if ty == 7 else 6
     mk = (lambda n: ip_address(n)) if v == 4 else (lambda n: ip_address(n.to_bytes(16, 'big')))
     return TrafficSelector(ty, proto, sp, ep, mk(sa), mk(ea))
+
+
+def ts_tuple(ts):
+    return [int(ts.ts_type), int(ts.ip_proto), int(ts.start_port), int(ts.end_port), int(ts.start_addr),
+            int(ts.end_addr)]
+
+
+def net_pair(n):
+    return [int(n.network_address), int(n.prefixlen)]
+
+
+def width(t):
+    return 32 if t[0] == 7 else 128
 
 
 def universe(ctx):
@@ -95,13 +519,19 @@ def universe(ctx):
     return out
 
 
+def rnd_range_ts(ctx, ty=None):
+    ty = ty or ctx.rng.choice((7, 8))
+    bits = 32 if ty == 7 else 128
+    a, b = sorted((ctx.rng.getrandbits(bits) >> ctx.rng.randrange(bits),
+                   ctx.rng.getrandbits(bits) >> ctx.rng.randrange(bits)))
+    p, q = sorted((ctx.rng.randrange(65536), ctx.rng.randrange(65536)))
+    return (ty, ctx.rng.choice((0, 1, 6, 17, 58)), p, q, a, b)
+
+
 def gen_pairs(ctx):
     uni = universe(ctx)
     pairs = []
-    if ctx.quick():
-        n = 6000
-    else:
-        n = 120000
+    n = 6000 if ctx.quick() else 120000
     allpairs = len(uni) * len(uni)
     if allpairs <= n:
         pairs = list(itertools.product(uni, uni))
@@ -111,14 +541,7 @@ def gen_pairs(ctx):
     # random wide ranges
     for _ in range(n // 4):
         ty = ctx.rng.choice((7, 8))
-        bits = 32 if ty == 7 else 128
-
-        def rnd_ts():
-            a, b = sorted((ctx.rng.getrandbits(bits) >> ctx.rng.randrange(bits),
-                           ctx.rng.getrandbits(bits) >> ctx.rng.randrange(bits)))
-            p, q = sorted((ctx.rng.randrange(65536), ctx.rng.randrange(65536)))
-            return (ty, ctx.rng.choice((0, 1, 6, 17, 58)), p, q, a, b)
-        pairs.append((rnd_ts(), rnd_ts()))
+        pairs.append((rnd_range_ts(ctx, ty), rnd_range_ts(ctx, ty)))
     return pairs
 
 
@@ -127,8 +550,370 @@ def impl_pair(a, b):
     return [bool(x.is_subset(y)), bool(x == y), int(x.get_port())]
 
 
+def impl_net(t):
+    x = mk_ts(t)
+    return [net_pair(x.get_network()), int(x.get_port())]
+
+
+def gen_networks(ctx):
+    """(version, base, prefix, port, proto): every prefix length of both families, random aligned bases."""
+    reps = 2 if ctx.quick() else 30
+    out = []
+    for version, w in ((4, 32), (6, 128)):
+        for prefix in range(w + 1):
+            for r in range(reps):
+                base = (ctx.rng.getrandbits(w) >> (w - prefix)) << (w - prefix) if prefix else 0
+                if r == 0:
+                    base = ((1 << w) - 1) >> (w - prefix) << (w - prefix) if prefix else 0   # the last network
+                port = ctx.rng.choice((0, 0, 1, 22, 65535, ctx.rng.randrange(65536)))
+                out.append((version, base, prefix, port, ctx.rng.choice((0, 1, 6, 17, 58, 135))))
+    return out
+
+
+def mk_network(version, base, prefix):
+    from ipaddress import IPv4Network, IPv6Network
+    return (IPv4Network if version == 4 else IPv6Network)((base, prefix))
+
+
+def impl_from_network(c):
+    from message import TrafficSelector
+    version, base, prefix, port, proto = c
+    t = TrafficSelector.from_network(mk_network(version, base, prefix), port, proto)
+    return [ts_tuple(t), net_pair(t.get_network()), int(t.get_port())]
+
+
+# ---- selectors that are related to each other (so that the policy lookup has something to find) ----------
+
+def related(ctx):
+    nets4 = [(0x0A000000, 8), (0x0A010000, 16), (0x0A010100, 24), (0x0A010100, 25), (0x0A010180, 25),
+             (0x0A010107, 32), (0x0A010200, 24), (0x0A020000, 16), (0, 0)]
+    b6 = 0x20010DB8 << 96
+    nets6 = [(b6, 32), (b6 + (1 << 80), 48), (b6 + (1 << 80), 64), (b6 + (1 << 80) + 5, 128), (0, 0)]
+    out = {7: [], 8: []}
+    for ty, nets, w in ((7, nets4, 32), (8, nets6, 128)):
+        for base, p in nets:
+            for proto in (0, 6, 17):
+                for port in (0, 80):
+                    out[ty].append((ty, proto, port, 65535 if port == 0 else port, base, base + (1 << (w - p)) - 1))
+        # ranges that are not networks, a port range, an empty range
+        first = nets[2][0]
+        out[ty].append((ty, 6, 1000, 2000, first + 10, first + 20))
+        out[ty].append((ty, 0, 0, 65535, first + 1, first + 254))
+        out[ty].append((ty, 17, 80, 79, first, first + 5))
+        out[ty].append((ty, 0, 0, 65535, first + 9, first + 3))
+    return out
+
+
+def gen_lookup(ctx, rel):
+    """(protect, tsis, tsrs): protect = [(index, mode, my_ts, peer_ts)] with 1..3 entries, lists of length 0..3."""
+    fam = ctx.rng.choice((7, 7, 8))
+
+    def pick():
+        f = fam if ctx.rng.random() < 0.9 else (15 - fam)
+        return ctx.rng.choice(rel[f])
+    nprot = ctx.rng.choice((1, 1, 2, 3))
+    protect = [(i + 1, ctx.rng.choice((0, 1)), pick(), pick()) for i in range(nprot)]
+
+    def lst():
+        n = ctx.rng.choice((0, 1, 1, 1, 2, 2, 3))
+        out = []
+        for _ in range(n):
+            r = ctx.rng.random()
+            if r < 0.25:
+                out.append(ctx.rng.choice(protect)[ctx.rng.choice((2, 3))])    # exactly a policy selector
+            else:
+                out.append(pick())
+        return out
+    tsis, tsrs = lst(), lst()
+    if ctx.rng.random() < 0.3 and protect:      # a pair aimed at one entry: (peer side, my side)
+        c = ctx.rng.choice(protect)
+        tsis = tsis[:2] + [c[3]]
+        tsrs = tsrs[:2] + [c[2]]
+        ctx.rng.shuffle(tsis)
+        ctx.rng.shuffle(tsrs)
+    return protect, tsis, tsrs
+
+
+def protect_objs(protect, proposal=None):
+    from types import SimpleNamespace as NS
+    import xfrm
+    return [NS(index=i, mode=xfrm.Mode(m), my_ts=mk_ts(a), peer_ts=mk_ts(b), lifetime=i, proposal=proposal)
+            for (i, m, a, b) in protect]
+
+
+def impl_lookup(protect, tsis, tsrs):
+    from types import SimpleNamespace as NS
+    import ikesa
+    from message import PayloadTSi, PayloadTSr
+    me = NS(configuration=NS(protect=protect_objs(protect)))
+    try:
+        conf, my, peer = ikesa.IkeSa._get_ipsec_configuration(me, PayloadTSi([mk_ts(t) for t in tsis]),
+                                                              PayloadTSr([mk_ts(t) for t in tsrs]))
+    except Exception as ex:
+        return type(ex).__name__
+    return [conf.index, ts_tuple(my), ts_tuple(peer)]
+
+
+# ---- the real IkeSa request/response processing with the kernel interface recorded ---------------------
+
+@contextlib.contextmanager
+def recorded_kernel():
+    import xfrm
+    calls = []
+    saved = {n: xfrm.Xfrm.__dict__[n] for n in ('create_sa', 'delete_sa')}
+    xfrm.Xfrm.create_sa = classmethod(lambda cls, *a, **k: calls.append(('create_sa',) + a))
+    xfrm.Xfrm.delete_sa = classmethod(lambda cls, *a, **k: calls.append(('delete_sa',) + a))
+    try:
+        yield calls
+    finally:
+        for n, v in saved.items():
+            setattr(xfrm.Xfrm, n, v)
+
+
+def child_proposal(spi=b''):
+    from message import Proposal, Transform
+    return Proposal(1, Proposal.Protocol.ESP, spi,
+                    [Transform(Transform.Type.ENCR, Transform.EncrId.ENCR_AES_CBC, 256),
+                     Transform(Transform.Type.INTEG, Transform.IntegId.AUTH_HMAC_SHA1_96),
+                     Transform(Transform.Type.ESN, Transform.EsnId.NO_ESN)])
+
+
+def real_ike_sa(is_initiator, protect):
+    import logging
+    logging.disable(logging.CRITICAL)
+    from types import SimpleNamespace as NS
+    from ipaddress import ip_address
+    import ikesa
+    import crypto
+    from message import Transform
+    conf = NS(dpd=60, lifetime=900, proposal=None, protect=protect_objs(protect, child_proposal()))
+    sa = ikesa.IkeSa(is_initiator, b'\x01' * 8, conf, ip_address('192.0.2.1'), ip_address('192.0.2.2'))
+    sa.my_crypto = crypto.Crypto(crypto.Cipher(Transform(Transform.Type.ENCR, Transform.EncrId.ENCR_AES_CBC, 256)),
+                                 b'\x05' * 32,
+                                 crypto.Integrity(Transform(Transform.Type.INTEG, Transform.IntegId.AUTH_HMAC_SHA1_96)),
+                                 b'\x06' * 20,
+                                 crypto.Prf(Transform(Transform.Type.PRF, Transform.PrfId.PRF_HMAC_SHA1)), b'\x07' * 20)
+    sa.peer_crypto = sa.my_crypto
+    sa.ike_sa_keyring = ikesa.Keyring(b'\x02' * 20, None, None, None, None, None, None)
+    return sa
+
+
+def kernel_view(calls):
+    """[src net, dst net, sport, dport, proto] of the outbound create_sa call + consistency of the inbound one."""
+    cs = [c for c in calls if c[0] == 'create_sa']
+    if len(cs) != 2:
+        return ['unexpected-kernel-calls', len(cs)]
+    o, i = cs[0][1:], cs[1][1:]
+    if (i[0], i[1], i[2], i[3], i[5], i[7]) != (o[1], o[0], o[3], o[2], o[5], o[7]):
+        return ['inbound-not-mirror']
+    return [net_pair(o[0]), net_pair(o[1]), int(o[2]), int(o[3]), int(o[5])], int(o[7])
+
+
+def impl_responder(protect, rekey, tsis, tsrs, transport):
+    """Runs IkeSa.process_create_child_sa_request; returns the exception class name answered as a notify, or
+    [policy index, child.tsi, child.tsr, mode, kernel selectors]."""
+    import ikesa
+    import xfrm
+    from message import (Message, Payload, PayloadNOTIFY, PayloadSA, PayloadNONCE, PayloadTSi, PayloadTSr, Proposal)
+    sa = real_ike_sa(False, protect)
+    sa.state = ikesa.IkeSa.State.ESTABLISHED
+    payloads = []
+    if rekey is not None:
+        old = ikesa.ChildSa(inbound_spi=b'\xaa' * 4, outbound_spi=b'\xbb' * 4, original_proposal=child_proposal(),
+                            proposal=child_proposal(), tsi=mk_ts(rekey[0]), tsr=mk_ts(rekey[1]),
+                            mode=xfrm.Mode.TUNNEL, lifetime=5)
+        sa.child_sas.append(old)
+        payloads.append(PayloadNOTIFY(Proposal.Protocol.ESP, PayloadNOTIFY.Type.REKEY_SA, b'\xbb' * 4))
+    payloads += [PayloadSA([child_proposal(b'\xcc' * 4)]), PayloadNONCE(b'\x03' * 16),
+                 PayloadTSi([mk_ts(t) for t in tsis]), PayloadTSr([mk_ts(t) for t in tsrs])]
+    if transport:
+        payloads.append(PayloadNOTIFY(Proposal.Protocol.NONE, PayloadNOTIFY.Type.USE_TRANSPORT_MODE))
+    req = Message(b'\x01' * 8, sa.my_spi, 2, 0, Message.Exchange.CREATE_CHILD_SA, False, False, True, 0, [], payloads)
+    before = len(sa.child_sas)
+    with recorded_kernel() as calls:
+        res = sa.process_create_child_sa_request(req)
+    out = res.encrypted_payloads
+    errors = [p for p in out if p.type == Payload.Type.NOTIFY and p.is_error()]
+    if errors:
+        name = {'TS_UNACCEPTABLE': 'TsUnacceptable'}.get(errors[0].notification_type.name, errors[0].notification_type.name)
+        if calls or len(sa.child_sas) != before or len(out) != 1:
+            return ['refused-but-not-clean', name, len(calls), len(sa.child_sas) - before, len(out)]
+        return name
+    if len(sa.child_sas) != before + 1:
+        return ['no-error-and-nothing-tracked']
+    child = sa.child_sas[-1]
+    kv = kernel_view(calls)
+    if not isinstance(kv, tuple):
+        return kv
+    if kv[1] != int(child.mode):
+        return ['kernel-mode-differs']
+    rtsi = [ts_tuple(t) for p in out if p.type == Payload.Type.TSi for t in p.traffic_selectors]
+    rtsr = [ts_tuple(t) for p in out if p.type == Payload.Type.TSr for t in p.traffic_selectors]
+    if rtsi != [ts_tuple(child.tsr)] or rtsr != [ts_tuple(child.tsi)]:
+        return ['reply-selectors-differ-from-installed', rtsi, rtsr]
+    tm = bool([p for p in out if p.type == Payload.Type.NOTIFY
+               and p.notification_type == PayloadNOTIFY.Type.USE_TRANSPORT_MODE])
+    if tm != (child.mode == xfrm.Mode.TRANSPORT):
+        return ['reply-mode-differs-from-installed']
+    return [int(child.lifetime), ts_tuple(child.tsi), ts_tuple(child.tsr), int(child.mode), kv[0]]
+
+
+def impl_initiator(my_mode, otsi, otsr, transport, rtsi, rtsr):
+    """Runs IkeSa._process_create_child_sa_negotiation_res on a response carrying rtsi/rtsr."""
+    import ikesa
+    import xfrm
+    from message import (Message, PayloadNOTIFY, PayloadSA, PayloadNONCE, PayloadTSi, PayloadTSr, Proposal)
+    sa = real_ike_sa(True, [])
+    sa.state = ikesa.IkeSa.State.NEW_CHILD_REQ_SENT
+    sa.creating_child_sa = ikesa.ChildSa(inbound_spi=b'\xaa' * 4, outbound_spi=b'\0' * 4,
+                                         original_proposal=child_proposal(), proposal=child_proposal(b'\xaa' * 4),
+                                         tsi=[mk_ts(t) for t in otsi], tsr=[mk_ts(t) for t in otsr],
+                                         mode=xfrm.Mode(my_mode), lifetime=77)
+    sa.request = Message(sa.my_spi, b'\x01' * 8, 2, 0, Message.Exchange.CREATE_CHILD_SA, False, False, True, 0, [],
+                         [PayloadNONCE(b'\x04' * 16)])
+    payloads = [PayloadSA([child_proposal(b'\xdd' * 4)]), PayloadNONCE(b'\x03' * 16),
+                PayloadTSi([mk_ts(t) for t in rtsi]), PayloadTSr([mk_ts(t) for t in rtsr])]
+    if transport:
+        payloads.append(PayloadNOTIFY(Proposal.Protocol.NONE, PayloadNOTIFY.Type.USE_TRANSPORT_MODE))
+    resp = Message(sa.my_spi, b'\x01' * 8, 2, 0, Message.Exchange.CREATE_CHILD_SA, True, False, False, 0, [], payloads)
+    with recorded_kernel() as calls:
+        try:
+            sa._process_create_child_sa_negotiation_res(resp)
+        except Exception as ex:
+            if calls or sa.child_sas:
+                return ['refused-but-not-clean', type(ex).__name__, len(calls), len(sa.child_sas)]
+            return type(ex).__name__
+    if len(sa.child_sas) != 1:
+        return ['no-error-and-nothing-tracked']
+    child = sa.child_sas[-1]
+    kv = kernel_view(calls)
+    if not isinstance(kv, tuple):
+        return kv
+    if kv[1] != int(child.mode):
+        return ['kernel-mode-differs']
+    return [ts_tuple(child.tsi), ts_tuple(child.tsr), int(child.mode), kv[0]]
+
+
+def gen_responder(ctx, rel):
+    protect, tsis, tsrs = gen_lookup(ctx, rel)
+    transport = ctx.rng.choice((0, 1))
+    rekey = None
+    r = ctx.rng.random()
+    if r < 0.45:
+        # a rekey: the replaced SA (tsi = my side, tsr = peer side)
+        c = ctx.rng.choice(protect)
+        fam = c[2][0]
+        old = (c[2] if ctx.rng.random() < 0.5 else ctx.rng.choice(rel[fam]),
+               c[3] if ctx.rng.random() < 0.5 else ctx.rng.choice(rel[c[3][0]]))
+        rekey = old
+        if ctx.rng.random() < 0.8:
+            tsis, tsrs = [old[1]], [old[0]]
+            q = ctx.rng.random()
+            if q < 0.08:
+                tsis = tsis + [old[1]]
+            elif q < 0.16:
+                tsrs = []
+            elif q < 0.24:
+                tsis, tsrs = tsrs, tsis
+        if ctx.rng.random() < 0.7:
+            transport = 1 if c[1] == 0 else 0
+    return protect, rekey, tsis, tsrs, transport
+
+
+def gen_initiator(ctx, rel):
+    fam = ctx.rng.choice((7, 7, 8))
+
+    def pick():
+        f = fam if ctx.rng.random() < 0.92 else (15 - fam)
+        return ctx.rng.choice(rel[f])
+    otsi = [pick() for _ in range(ctx.rng.choice((1, 2, 2, 3)))]
+    otsr = [pick() for _ in range(ctx.rng.choice((1, 2, 2, 3)))]
+
+    def resp(offer):
+        n = ctx.rng.choice((0, 1, 1, 1, 2))
+        out = []
+        for _ in range(n):
+            out.append(ctx.rng.choice(offer) if ctx.rng.random() < 0.5 else pick())
+        return out
+    my_mode = ctx.rng.choice((0, 1))
+    transport = (1 if my_mode == 0 else 0) if ctx.rng.random() < 0.8 else ctx.rng.choice((0, 1))
+    return my_mode, otsi, otsr, transport, resp(otsi), resp(otsr)
+
+
+# =============================================================================================
+# tie 2: correspondence model <-> implementation
+
+def _mismatches(ctx, fn, cases, sig, name, shard):
+    bad = core.run_cases(ctx, CLUSTER, 'From Ts Require Import TsRun.', fn, cases, shard=shard, name=name)
+    return [Failure('correspondence', sig, f'model {model_out} vs implementation {cases[gi][1]} on {cases[gi][0]}',
+                    {'kind': name, 'input': cases[gi][0], 'impl': cases[gi][1], 'model': model_out})
+            for gi, model_out in bad[:6]]
+
+
+def correspond(ctx):
+    fails = []
+    # 1 selector pairs: is_subset, __eq__, get_port
+    cases = []
+    for a, b in gen_pairs(ctx):
+        out = impl_pair(a, b)
+        cases.append(([list(a), list(b)], out))
+        ctx.case([a, b], nontrivial=(a != b), sample=(len(ctx.samples) < 2))
+        ctx.count('pair:subset=%s' % out[0])
+    fails += _mismatches(ctx, 'run_pair', cases, 'ts:pair', 'pair', 2500)
+    # 2 get_network / get_port of selectors (universe + random ranges, also reversed ranges)
+    cases = []
+    sel = list(universe(ctx)) + [rnd_range_ts(ctx) for _ in range(600 if ctx.quick() else 20000)]
+    sel += [(t[0], t[1], t[2], t[3], t[5], t[4]) for t in sel[-100:]]
+    for t in sel:
+        out = impl_net(t)
+        cases.append((list(t), out))
+        ctx.case(['net', t], nontrivial=(t[4] != t[5]))
+        ctx.count('net:prefix/8=%d' % (out[0][1] // 8))
+    fails += _mismatches(ctx, 'run_net', cases, 'ts:get_network', 'net', 1500)
+    # 3 from_network for every prefix length, then get_network/get_port of the result
+    cases = []
+    for c in gen_networks(ctx):
+        cases.append((list(c), impl_from_network(c)))
+        ctx.case(['from_network', c], nontrivial=True, sample=(len(ctx.samples) < 3))
+        ctx.count('from_network:v%d' % c[0])
+    fails += _mismatches(ctx, 'run_from_network', cases, 'ts:from_network', 'fromnet', 1000)
+    # 4 policy lookup through the real IkeSa._get_ipsec_configuration
+    rel = related(ctx)
+    cases = []
+    for _ in range(1500 if ctx.quick() else 30000):
+        protect, tsis, tsrs = gen_lookup(ctx, rel)
+        out = impl_lookup(protect, tsis, tsrs)
+        cases.append(([protect, tsis, tsrs], out))
+        ctx.case(['lookup', protect, tsis, tsrs], nontrivial=(len(tsis) * len(tsrs) > 0),
+                 sample=(len(ctx.samples) < 4))
+        ctx.count('lookup:%s' % ('found' if isinstance(out, list) else out))
+    fails += _mismatches(ctx, 'run_conf', cases, 'ts:policy-lookup', 'lookup', 700)
+    # 5 responder: the real request processing with the kernel calls recorded
+    cases = []
+    for _ in range(500 if ctx.quick() else 6000):
+        c = gen_responder(ctx, rel)
+        out = impl_responder(*c)
+        cases.append(([c[0], c[1], c[2], c[3], c[4]], out))
+        ctx.case(['responder', c], nontrivial=True, sample=(len(ctx.samples) < 5))
+        ctx.count('responder:%s%s' % ('rekey:' if c[1] is not None else '', 'installed' if isinstance(out, list) else out))
+    fails += _mismatches(ctx, 'run_responder', cases, 'ts:responder', 'responder', 500)
+    # 6 initiator: the real response processing
+    cases = []
+    for _ in range(400 if ctx.quick() else 5000):
+        c = gen_initiator(ctx, rel)
+        out = impl_initiator(*c)
+        cases.append((list(c), out))
+        ctx.case(['initiator', c], nontrivial=True, sample=(len(ctx.samples) < 6))
+        ctx.count('initiator:%s' % ('installed' if isinstance(out, list) else out))
+    fails += _mismatches(ctx, 'run_initiator', cases, 'ts:initiator', 'initiator', 500)
+    return fails
+
+
+# =============================================================================================
+# the property on the real code only (no model): falsifier
+
 def denote_subset(a, b):
-    """Spec on the Python side (used by the falsifier only): packet-set inclusion for non-empty a."""
+    """Spec on the Python side: packet-set inclusion for non-empty a."""
     if a[0] != b[0]:
         return False
     if b[1] != 0 and a[1] != b[1]:
@@ -136,58 +921,220 @@ def denote_subset(a, b):
     return b[2] <= a[2] and a[3] <= b[3] and b[4] <= a[4] and a[5] <= b[5]
 
 
-def correspond(ctx):
-    pairs = gen_pairs(ctx)
-    cases = []
-    for a, b in pairs:
-        out = impl_pair(a, b)
-        cases.append(([list(a), list(b)], out))
-        ctx.case([a, b], nontrivial=(a != b), sample=(len(ctx.samples) < 3))
-        ctx.count('subset=%s' % out[0])
-    bad = core.run_cases(ctx, CLUSTER, 'From Ts Require Import TsRun.', 'run_pair', cases, shard=2500)
-    fails = []
-    for gi, model_out in bad[:10]:
-        fails.append(Failure('correspondence', 'ts:pair', f'model {model_out} vs implementation {cases[gi][1]}',
-                             {'pair': cases[gi][0], 'impl': cases[gi][1], 'model': model_out}))
-    return fails
+def nonempty(a):
+    return a[2] <= a[3] and a[4] <= a[5]
+
+
+def smallest_network(w, s, e):
+    """Independent of ipaddress: the smallest aligned block containing s and e."""
+    h = (s ^ e).bit_length()
+    return [(s >> h) << h, w - h]
+
+
+def spec_port(t):
+    return 0 if (t[2], t[3]) == (0, 65535) else t[3]
+
+
+def check_is_subset(a, b):
+    if not nonempty(a):
+        return None
+    got = impl_pair(a, b)[0]
+    if got != denote_subset(a, b):
+        return Failure('property', 'ts:is_subset-vs-packet-inclusion',
+                       f'is_subset({a},{b}) = {got} but packet-set inclusion is {not got}',
+                       {'kind': 'is_subset', 'a': list(a), 'b': list(b)})
+
+
+def check_net(t):
+    got = impl_net(t)
+    want = [smallest_network(width(t), t[4], t[5]), spec_port(t)]
+    if got != want:
+        return Failure('property', 'ts:get_network-not-smallest-cover',
+                       f'get_network/get_port of {t} = {got}, smallest covering network/port {want}',
+                       {'kind': 'net', 't': list(t)})
+
+
+def check_from_network(c):
+    version, base, prefix, port, proto = c
+    got = impl_from_network(c)
+    w = 32 if version == 4 else 128
+    want_ts = [7 if version == 4 else 8, proto, port, 65535 if port == 0 else port, base, base + (1 << (w - prefix)) - 1]
+    if got != [want_ts, [base, prefix], port]:
+        return Failure('property', 'ts:network-roundtrip',
+                       f'from_network{c} -> {got[0]}, back to network {got[1]} port {got[2]}',
+                       {'kind': 'from_network', 'c': list(c)})
+
+
+def check_lookup(protect, tsis, tsrs):
+    got = impl_lookup(protect, tsis, tsrs)
+    obj = {'kind': 'lookup', 'protect': protect, 'tsis': tsis, 'tsrs': tsrs}
+    if isinstance(got, str):
+        if got != 'TsUnacceptable':
+            return Failure('property', 'ts:lookup-exception', f'_get_ipsec_configuration raised {got}', obj)
+        # refused although some non-empty pair is comparable with an entry?
+        for c in protect:
+            for i in tsis:
+                for r in tsrs:
+                    if all(map(nonempty, (i, r, c[2], c[3]))) and (
+                            (denote_subset(i, c[3]) and denote_subset(r, c[2]))
+                            or (denote_subset(c[3], i) and denote_subset(c[2], r))):
+                        return Failure('property', 'ts:lookup-refused-comparable',
+                                       f'TsUnacceptable although ({i},{r}) is comparable with entry {c[0]}', obj)
+        return None
+    idx, my, peer = got
+    c = next(x for x in protect if x[0] == idx)
+    my, peer = tuple(my), tuple(peer)
+    if not (nonempty(my) and nonempty(peer)):
+        return None
+    ok = (denote_subset(my, c[2]) and denote_subset(peer, c[3]) and any(denote_subset(my, r) for r in tsrs)
+          and any(denote_subset(peer, i) for i in tsis))
+    if not ok:
+        return Failure('property', 'ts:narrowing-widened',
+                       f'lookup chose my={my} peer={peer} (entry {idx}) not inside both the offer and the policy', obj)
+
+
+def check_responder(protect, rekey, tsis, tsrs, transport, rekey_equal=True):
+    got = impl_responder(protect, rekey, tsis, tsrs, transport)
+    obj = {'kind': 'responder', 'protect': protect, 'rekey': rekey, 'tsis': tsis, 'tsrs': tsrs, 'transport': transport}
+    if isinstance(got, str):
+        return None if got == 'TsUnacceptable' else Failure(
+            'property', 'ts:responder-other-error', f'request answered with {got}', obj)
+    if len(got) != 5:
+        return Failure('property', 'ts:responder-' + str(got[0]), f'responder: {got}', obj)
+    idx, ctsi, ctsr, mode, kern = got
+    c = next(x for x in protect if x[0] == idx)
+    ctsi, ctsr = tuple(ctsi), tuple(ctsr)
+    if mode != c[1] or mode != (0 if transport else 1):
+        return Failure('property', 'ts:mode-mismatch-installed',
+                       f'installed mode {mode}, policy {c[1]}, requested {"transport" if transport else "tunnel"}', obj)
+    if nonempty(ctsi) and nonempty(ctsr):
+        if not (denote_subset(ctsi, c[2]) and denote_subset(ctsr, c[3]) and any(denote_subset(ctsi, r) for r in tsrs)
+                and any(denote_subset(ctsr, i) for i in tsis)):
+            return Failure('property', 'ts:narrowing-widened',
+                           f'installed tsi={ctsi} tsr={ctsr} not inside both the offer and policy entry {idx}', obj)
+    want_k = [smallest_network(width(ctsi), ctsi[4], ctsi[5]), smallest_network(width(ctsr), ctsr[4], ctsr[5]),
+              spec_port(ctsi), spec_port(ctsr), ctsi[1]]
+    if kern != want_k:
+        return Failure('property', 'ts:kernel-selectors', f'kernel selectors {kern}, CHILD_SA selectors give {want_k}', obj)
+    if rekey is not None:
+        if [list(x) for x in tsis] != [list(rekey[1])] or [list(x) for x in tsrs] != [list(rekey[0])]:
+            return Failure('property', 'ts:rekey-different-selectors-accepted',
+                           f'rekey of {rekey} accepted with TSi={tsis} TSr={tsrs}', obj)
+        # the replaced SA is one this code can have created: its selectors lie inside some policy entry
+        reachable = any(denote_subset(tuple(rekey[0]), x[2]) and denote_subset(tuple(rekey[1]), x[3]) for x in protect)
+        if rekey_equal and reachable and (list(ctsi) != list(rekey[0]) or list(ctsr) != list(rekey[1])):
+            return Failure('property', 'ts:rekey-selectors-differ-from-replaced-sa',
+                           f'rekey of a CHILD_SA with tsi={tuple(rekey[0])} tsr={tuple(rekey[1])} installed '
+                           f'tsi={ctsi} tsr={ctsr} (policy entry {idx} of {len(protect)})', obj)
+    return None
+
+
+def check_initiator(my_mode, otsi, otsr, transport, rtsi, rtsr):
+    got = impl_initiator(my_mode, otsi, otsr, transport, rtsi, rtsr)
+    obj = {'kind': 'initiator', 'c': [my_mode, otsi, otsr, transport, rtsi, rtsr]}
+    if isinstance(got, str):
+        return None      # refused: nothing installed (checked inside impl_initiator)
+    if len(got) != 4:
+        return Failure('property', 'ts:initiator-' + str(got[0]), f'initiator: {got}', obj)
+    ctsi, ctsr, mode, kern = got
+    ctsi, ctsr = tuple(ctsi), tuple(ctsr)
+    if mode != my_mode or mode != (0 if transport else 1):
+        return Failure('property', 'ts:mode-mismatch-installed', f'response in mode {0 if transport else 1} installed '
+                       f'for a request in mode {my_mode}', obj)
+    if nonempty(ctsi) and nonempty(ctsr) and not (any(denote_subset(ctsi, x) for x in otsi)
+                                                  and any(denote_subset(ctsr, x) for x in otsr)):
+        return Failure('property', 'ts:response-widened-installed',
+                       f'response selectors {ctsi} / {ctsr} are not inside the offer {otsi} / {otsr}', obj)
+    want_k = [smallest_network(width(ctsi), ctsi[4], ctsi[5]), smallest_network(width(ctsr), ctsr[4], ctsr[5]),
+              spec_port(ctsi), spec_port(ctsr), ctsi[1]]
+    if kern != want_k:
+        return Failure('property', 'ts:kernel-selectors', f'kernel selectors {kern}, CHILD_SA selectors give {want_k}', obj)
+    return None
+
+
+# the witness of Props/C12.v C12_rekey_same_refuted (rk_c1, rk_c0) on the real code
+REKEY_WITNESS = dict(
+    protect=[(1, 1, (7, 6, 80, 80, 167772416, 167772671), (7, 6, 0, 65535, 167772672, 167772927)),
+             (2, 1, (7, 0, 0, 65535, 167772416, 167772671), (7, 0, 0, 65535, 167772672, 167772927))],
+    rekey=((7, 0, 0, 65535, 167772416, 167772671), (7, 0, 0, 65535, 167772672, 167772927)),
+    tsis=[(7, 0, 0, 65535, 167772672, 167772927)], tsrs=[(7, 0, 0, 65535, 167772416, 167772671)], transport=0)
 
 
 def oracle(ctx, deep):
     fails = []
-    pairs = gen_pairs(ctx) if deep else gen_pairs(ctx)[:3000]
-    for a, b in pairs:
-        nonempty = a[2] <= a[3] and a[4] <= a[5]
-        if not nonempty:
-            continue
-        got = impl_pair(a, b)[0]
-        if got != denote_subset(a, b):
-            fails.append(Failure('property', 'ts:is_subset-vs-packet-inclusion',
-                                 f'is_subset({a},{b}) = {got} but packet-set inclusion is {not got}',
-                                 {'kind': 'is_subset', 'a': list(a), 'b': list(b)}))
-            if len(fails) > 5:
-                break
+
+    def add(f):
+        if f is not None and sum(1 for x in fails if x.signature == f.signature) < 3:
+            fails.append(f)
+    pairs = gen_pairs(ctx)
+    for a, b in (pairs if deep else pairs[:3000]):
+        add(check_is_subset(a, b))
+    for t in list(universe(ctx)) + [rnd_range_ts(ctx) for _ in range(20000 if deep else 1500)]:
+        add(check_net(t))
+    nets = gen_networks(ctx)
+    for c in nets:
+        add(check_from_network(c))
+    rel = related(ctx)
+    for _ in range(20000 if deep else 1500):
+        add(check_lookup(*gen_lookup(ctx, rel)))
+    for _ in range(3000 if deep else 300):
+        add(check_responder(*gen_responder(ctx, rel)))
+    for _ in range(3000 if deep else 300):
+        add(check_initiator(*gen_initiator(ctx, rel)))
+    w = REKEY_WITNESS
+    add(check_responder(w['protect'], w['rekey'], w['tsis'], w['tsrs'], w['transport']))
     return fails
 
 
+def _tup(x):
+    return tuple(_tup(e) for e in x) if isinstance(x, (list, tuple)) else x
+
+
 def replay(ctx, obj):
-    if obj.get('kind') == 'is_subset':
-        a, b = tuple(obj['a']), tuple(obj['b'])
-        got = impl_pair(a, b)[0]
-        if got != denote_subset(a, b):
-            return [Failure('property', 'ts:is_subset-vs-packet-inclusion', f'is_subset({a},{b}) = {got}', obj)]
-    return []
+    kind = obj.get('kind')
+    f = None
+    if kind == 'is_subset':
+        f = check_is_subset(_tup(obj['a']), _tup(obj['b']))
+    elif kind == 'net':
+        f = check_net(_tup(obj['t']))
+    elif kind == 'from_network':
+        f = check_from_network(_tup(obj['c']))
+    elif kind == 'lookup':
+        f = check_lookup(_tup(obj['protect']), _tup(obj['tsis']), _tup(obj['tsrs']))
+    elif kind == 'responder':
+        rk = _tup(obj['rekey']) if obj['rekey'] is not None else None
+        f = check_responder(_tup(obj['protect']), rk, _tup(obj['tsis']), _tup(obj['tsrs']), obj['transport'])
+    elif kind == 'initiator':
+        f = check_initiator(*_tup(obj['c']))
+    return [f] if f is not None else []
 
 
 CHECK = core.Check(
     'C12', CLUSTER, 'Props/C12.v', translate=translate, correspond=correspond, oracle=oracle, replay=replay,
     deps=('lib',),
-    rule='selector pairs: exhaustive product over a small universe (2 families x 3 protocols x 7 port ranges x '
-         'address ranges, incl. empty ranges) when it fits the tier budget, else seeded sample of it, plus random '
-         'wide IPv4/IPv6 ranges; a case is non-trivial when the two selectors differ; distinct by content hash',
+    rule='(1) selector pairs: exhaustive product over a small universe (2 families x 3 protocols x 7 port ranges x '
+         'address ranges, incl. empty ranges) when it fits the tier budget, else a seeded sample of it, plus random '
+         'wide IPv4/IPv6 ranges; (2) get_network/get_port of the universe and of random ranges (incl. reversed); '
+         '(3) from_network for every prefix length 0..32 / 0..128 with random aligned bases and the last network; '
+         '(4) TSi/TSr lists of length 0..3 against 1..3-entry policies drawn from families of nested networks, port '
+         'and protocol variants, through the real IkeSa._get_ipsec_configuration; (5) whole CREATE_CHILD_SA requests '
+         '(with/without REKEY_SA and USE_TRANSPORT_MODE) through the real IkeSa.process_create_child_sa_request and '
+         '(6) responses through _process_create_child_sa_negotiation_res, Xfrm.create_sa recorded. Non-trivial: the '
+         'two selectors differ / the range is not a single address / both lists non-empty; distinct by content hash',
     trusted_base=['Coq 8.16.1 kernel (coqc, vm_compute; no native_compute)',
-                  'py/vlib/pyast.py translator (is_subset, __eq__, get_port, from_network rule -> Gen/TsFuns.v)',
-                  'correspondence harness py/props/c12.py (runs message.TrafficSelector on the same inputs)',
-                  'ipaddress module: integer order of addresses of one family'],
+                  'py/vlib/pyast.py + py/props/c12.py translator (message.py: is_subset, __eq__, get_port, from_network '
+                  'rules, addr_len -> Gen/TsFuns.v; ikesa.py: the two matching rules and returned tuples, iteration '
+                  'order, rekey comparison, mode comparisons, narrowing check, installed fields -> Gen/TsIkesa.v; '
+                  'statement order and the create_sa argument order are pattern-checked, fail closed)',
+                  'hand model coq/ts/TsModel.v of get_network (ip_network/supernet loop), the three lookup loops and '
+                  'the check sequence, tied by the correspondence harness py/props/c12.py',
+                  'ipaddress module: integer order of addresses of one family, ip_network/supernet/__contains__, '
+                  'subnet[0]/subnet[-1]'],
     assumptions=['addresses of a selector belong to the family its ts_type names (true for parsed and configured '
-                 'selectors)'],
+                 'selectors: TrafficSelector.parse reads 4 bytes for TS_IPV4_ADDR_RANGE and 16 otherwise); with '
+                 'mixed families get_network would not terminate',
+                 'the selector/mode theorems cover the checks of _process_create_child_sa_negotiation_req/_res; that '
+                 'nothing else installs a CHILD_SA is the pattern check of the translator (statement order), not a theorem',
+                 'C12_rekey_same holds only under the hypothesis of C12_rekey_same_partial; the unconditional '
+                 'statement is refuted (C12_rekey_same_refuted) and replayed on the real code'],
 )
